@@ -54,6 +54,7 @@ def mandatory(tier):
     return [
         "route/origin", "route/center", "dir/identity", "dir/perm", "dir/rot", "D/2", "D/3",
         "from_sitk", "image_sitk", "from_file", "index_outside", "index_inside", "grid_attrs",
+        "file_route/.mha", "file_route/.nii.gz", "file_route/.nrrd", "file_route/.mhd",
     ]
 
 
@@ -209,6 +210,24 @@ def run_item(ctx, item):
                 header_checks(ctx, "from_file" + ext, g, fsize, forigin, fspacing, fdir, wtol.max(axis=0) * 2)
                 g2 = Grid.from_reader(rd)
                 header_checks(ctx, "from_reader" + ext, g2, fsize, forigin, fspacing, fdir, wtol.max(axis=0) * 2)
+                # the same geometry through the data class: Image.read of the ITK file places every index where ITK does,
+                # and ITK places every index of an Image.write file where the grid does
+                back_img = sitk.ReadImage(path)
+                fphys = np.array([back_img.TransformContinuousIndexToPhysicalPoint([float(c) for c in row]) for row in idx])
+                im = Image.read(path, align_corners=p["align_corners"])
+                ctx.close("image_read_index_to_world_vs_itk", im.grid().index_to_world(torch.tensor(idx, dtype=torch.float64)), fphys, 2 * wtol + 1e-9, key=f"file_route/read/{ext}", ext=ext)
+                header_checks(ctx, "Image.read" + ext, im.grid(), fsize, forigin, fspacing, fdir, wtol.max(axis=0) * 2)
+                gsrc = grids.get("origin")
+                if gsrc is not None:
+                    path2 = os.path.join(tmp, "own" + ext)
+                    Image(torch.zeros((1,) + tuple(size[::-1]), dtype=torch.float32), gsrc).write(path2)
+                    own = sitk.ReadImage(path2)
+                    ophys = np.array([own.TransformContinuousIndexToPhysicalPoint([float(c) for c in row]) for row in idx])
+                    # formats store float32 values or quaternions: 2e-5 relative on each header field
+                    ftol = wtol + 2e-5 * (np.abs(np.asarray(origin)) + (np.abs(idx) + 1) @ np.abs(ref.A).T) + 1e-9
+                    ctx.close("image_write_index_to_world_by_itk", ophys, gsrc.index_to_world(torch.tensor(idx, dtype=torch.float64)).numpy(), ftol, key=f"file_route/write/{ext}", ext=ext)
+                    ctx.close("image_write_direction_by_itk", np.array(own.GetDirection()).reshape(D, D), direction, 2e-5, key=f"file_route/write/{ext}", ext=ext)
+                    ctx.bucket(f"file_route/{ext}")
                 # and the file header itself stayed what was written (guards the oracle)
                 ctx.close("file_header_origin_preserved", forigin, np.asarray(origin), 1e-4 * (1 + np.abs(origin)))
 
